@@ -98,7 +98,8 @@ Print Assumptions C22_independent.
    clone's methods look like.  Independence is false for hierarchical problems with an action used as a subtask. *)
 Theorem C22_htn_methods_alias_original_actions_refuted :
   exists h hp o,
-    wf h (h_prob hp) /    let (h1, hc) := hclone_htn h hp in
+    wf h (h_prob hp) /\
+    let (h1, hc) := hclone_htn h hp in
     let '(h2, _, out) := hstep h1 (h_prob hp) o in
     out = Ok /\ methods_view h2 (h_methods hc) <> methods_view h1 (h_methods hc).
 Proof. exact htn_methods_alias_original_actions. Qed.
@@ -109,8 +110,10 @@ Print Assumptions C22_htn_methods_alias_original_actions_refuted.
    add_effect, end up different although every call succeeded on both. *)
 Theorem C22_aliased_original_refuted :
   exists h p ops,
-    ~ NoDup (footprint h p) /    let r := wrun (clone_world h p) (both ops) in
-    snd r = [Ok; Ok] /    abs (w_heap (fst r)) (w_c (fst r)) <> abs (w_heap (fst r)) (w_p (fst r)).
+    ~ NoDup (footprint h p) /\
+    let r := wrun (clone_world h p) (both ops) in
+    snd r = [Ok; Ok] /\
+    abs (w_heap (fst r)) (w_c (fst r)) <> abs (w_heap (fst r)) (w_p (fst r)).
 Proof. exact aliased_original_diverges. Qed.
 Print Assumptions C22_aliased_original_refuted.
 
@@ -151,11 +154,13 @@ Proof. vm_compute. tauto. Qed.
 Example C22_clone_equal_nonvacuous : wf (fst (load ex_state)) (snd (load ex_state)).
 Proof. apply wfb_wf. vm_compute. reflexivity. Qed.
 Example C22_simulation_nonvacuous :
-  wf (fst (load ex_state)) (snd (load ex_state)) /  snd (wrun (clone_world (fst (load ex_state)) (snd (load ex_state))) [(SClone, ex_assign); (SOrig, ex_goal); (SOrig, ex_assign)])
+  wf (fst (load ex_state)) (snd (load ex_state)) /\
+  snd (wrun (clone_world (fst (load ex_state)) (snd (load ex_state))) [(SClone, ex_assign); (SOrig, ex_goal); (SOrig, ex_assign)])
   = [Fail 2; Ok; Fail 2].
 Proof. split; [apply wfb_wf; vm_compute; reflexivity | vm_compute; reflexivity]. Qed.
 Example C22_same_outcomes_and_stay_equal_nonvacuous : wf (fst (load ex_state)) (snd (load ex_state)).
 Proof. exact C22_clone_equal_nonvacuous. Qed.
 Example C22_independent_nonvacuous :
-  wf (fst (load ex_state)) (snd (load ex_state)) /  proj SOrig [(SClone, ex_assign); (SOrig, ex_goal)] = proj SOrig [(SOrig, ex_goal); (SClone, ex_goal); (SClone, ex_goal)].
+  wf (fst (load ex_state)) (snd (load ex_state)) /\
+  proj SOrig [(SClone, ex_assign); (SOrig, ex_goal)] = proj SOrig [(SOrig, ex_goal); (SClone, ex_goal); (SClone, ex_goal)].
 Proof. split; [exact C22_clone_equal_nonvacuous | reflexivity]. Qed.
